@@ -276,6 +276,25 @@ pub fn codec_tests<C: Cv>(prog: &Program, tests: &[Value], seed: u64) -> Vec<Val
                     _ => continue,
                 }
             }
+            "token2" => {
+                let (i, j) = (t["tok"].as_u64().unwrap() as usize, t["tok2"].as_u64().unwrap() as usize);
+                if i >= layout.len() || j >= layout.len() || layout[i].0 != "pt" || layout[j].0 != "pt" {
+                    continue;
+                }
+                match &small {
+                    Some(tp) => {
+                        let len = layout[i].1;
+                        let p1 = C::G::deserialize_with_mode(&bytes[offs[i]..offs[i] + len], Compress::Yes, Validate::No).unwrap();
+                        let p2 = C::G::deserialize_with_mode(&bytes[offs[j]..offs[j] + len], Compress::Yes, Validate::No).unwrap();
+                        let q1 = (p1.into_group() + tp.into_group()).into_affine();
+                        let q2 = (p2.into_group() - tp.into_group()).into_affine();
+                        bytes[offs[i]..offs[i] + len].copy_from_slice(&ser_c(&q1));
+                        bytes[offs[j]..offs[j] + len].copy_from_slice(&ser_c(&q2));
+                        note = "P1 + T, P2 - T for a small-order point T".into();
+                    }
+                    None => continue,
+                }
+            }
             "lenprefix" => {
                 // a huge count in a length prefix must not make the decoder allocate in proportion to it
                 let which = t["which"].as_u64().unwrap() as usize; // 0 = L, 1 = R
